@@ -302,6 +302,9 @@ func writeRecordConverters(w *formatting.IndentedWriter, t *dsl.RecordDefinition
 	w.WriteString(templateDeclarationBuilder.String())
 	fmt.Fprintf(w, "void from_json(ordered_json const& j, %s& value) {\n", typeName)
 	w.Indented(func() {
+		// The destination may be reused (e.g. for successive stream items) and fields
+		// holding null are omitted from the JSON object, so start from a clean record.
+		w.WriteStringln("value = {};")
 		for _, field := range t.Fields {
 			fmt.Fprintf(w, "if (auto it = j.find(\"%s\"); it != j.end()) {\n", field.Name)
 			w.Indented(func() {
